@@ -2,6 +2,7 @@
 from hypothesis import strategies as st
 
 import gen_source
+import gen_util
 from checks import _prog
 
 ID = "C05"
@@ -25,7 +26,7 @@ CRASH_IS_VIOLATION = False
 def run_case(ctx, case, versions):
     if case.get("exec"):
         a = {"case": {k: v for k, v in case.items() if k not in ("min_version", "exec")}}
-        return ctx.pool.call("c05_exec", a, versions, budget=30)
+        return ctx.pool.call("c05_exec", a, versions, budget=12, retry_factor=1)
     return ctx.pool.call("c05", _prog.op_args(case), versions)
 
 
@@ -33,7 +34,7 @@ def strategy(tier):
     general = _prog.strategy(tier)
     safe = gen_source.grammar_programs(max_size=25 if tier == "quick" else 45, exec_safe=True).map(
         lambda c: dict(c, exec=True, _label="exec_safe", optimize=0, mode="exec"))
-    return st.one_of(general, general, safe)
+    return gen_util.weighted((2, general), (1, safe))
 
 
 EXEC_FIXED = [
